@@ -132,14 +132,14 @@ impl WorkerTree {
         }
 
         let work_timer = Timer::now();
+        let mut total_done_count = 0;
 
         'work_loop: loop {
             let mut add_edges = Vec::new();
+            let mut done_count = 0;
 
             match toposort(&self.graph, None) {
                 Ok(node_indexes) => {
-                    let mut done_count = 0;
-
                     for node_index in node_indexes {
                         let work_item = self
                             .graph
@@ -208,9 +208,15 @@ impl WorkerTree {
                         }
                     }
 
-                    log::debug!("process batch of tasks ({}/{})", done_count, total_not_done);
+                    total_done_count += done_count;
 
-                    if done_count == total_not_done {
+                    log::debug!(
+                        "process batch of tasks ({}/{})",
+                        total_done_count,
+                        total_not_done
+                    );
+
+                    if total_done_count == total_not_done {
                         break;
                     }
                 }
@@ -226,6 +232,22 @@ impl WorkerTree {
 
             for (from, to) in add_edges {
                 self.graph.add_edge(from, to, ());
+            }
+
+            if done_count == 0 && toposort(&self.graph, None).is_ok() {
+                // nothing completed and there is no cycle to report on the next pass: the
+                // remaining work is waiting for content that no work item will produce
+                let waiting: Vec<_> = self
+                    .graph
+                    .node_weights()
+                    .filter(|item| !item.status.is_done())
+                    .map(|item| format!("`{}`", item.source().display()))
+                    .collect();
+
+                return Err(DarkluaError::custom(format!(
+                    "unable to complete work because the content required by {} is not produced by any work",
+                    waiting.join(", ")
+                )));
             }
         }
 
